@@ -145,14 +145,15 @@ def listed(win, mode):
 FAR = 10**7     # ticks: a window that no neutron of any generated pulse can reach
 
 
-def make_chopper(cc, sc_, d, win, mode=0):
+def make_chopper(cc, sc_, d, win, mode=0, dist=None):
     """mode picks how the same chopper is spelled: listing order of the windows (mode % 3), memory layout of the
     window arrays ((mode // 3) % 3: contiguous | strided views of one interleaved array | selected with
     Chopper.__getitem__ from a chopper that has two more windows far away), integer-typed distance in metres
     where it is a whole number ((mode // 9) % 2)."""
     win = listed(win, mode)
     layout = (mode // 3) % 3
-    dist = sc_.distance(d, as_int=(mode // 9) % 2 == 1 and sc_.whole(d))
+    if dist is None:
+        dist = sc_.distance(d, as_int=(mode // 9) % 2 == 1 and sc_.whole(d))
     if layout == 2:
         win = [(-FAR - 5, -FAR)] + win + [(FAR, FAR + 5)]
     opens, closes = [float(o * sc_.tau) for o, _ in win], [float(c * sc_.tau) for _, c in win]
@@ -378,22 +379,28 @@ def replay_enumerated(ctx, rec, cc, case, idx, rng, probe=None):
         ctx = _Fixed(ctx, INT_TIME_KEY)
     elif probe == 'int_cm':
         sc_ = Scale(Fraction(1, 2), Fraction(2))
+    elif probe == 'int_chop_cm':
+        sc_ = Scale(Fraction(1, 4), Fraction(2))      # choppers at even model distances = x.5 m = whole centimetres
+        ctx = _Fixed(ctx, 'chop: chopper ' + INT_DIST_KEY)
     else:
         # four ordinary scales and (HARDENING 4) a uniformly tiny one (tick = 31 ns) and a large one (tick = 1 ms)
         sc_ = Scale(*[(Fraction(1), Fraction(1)), (Fraction(1, 2), Fraction(2)), (Fraction(5, 2), Fraction(1, 2)),
                       (Fraction(3), Fraction(1, 10)), (Fraction(1, 64), Fraction(1, 128)), (Fraction(4), Fraction(1))][idx % 6])
-    fixed = INT_TIME_KEY if probe in ('int_ms', 'int_us') else None
+    fixed = INT_TIME_KEY if probe in ('int_ms', 'int_us') else 'chop: chopper ' + INT_DIST_KEY if probe == 'int_chop_cm' else None
     pts = grid_neutrons(pulse)
     desc = {'pulse': pulse, 'choppers': case['choppers'], 'distance_unit_m': str(sc_.d0),
             'wavelength_unit_angstrom': str(sc_.lam0), 'expected_polygons_at_dfinal_scaled_by_L': case['expect']}
     if probe:
         desc['handed_over_as'] = {'int_ms': 'pulse times as int64 milliseconds', 'int_us': 'pulse times as int64 microseconds',
-                                  'int_cm': 'propagate_to / __getitem__ distances as int64 centimetres'}[probe]
+                                  'int_cm': 'propagate_to / __getitem__ distances as int64 centimetres',
+                                  'int_chop_cm': 'chopper distances as int64 centimetres (not whole metres)'}[probe]
     desc['integer_typed_operands'] = bool(probe) or any(
         ((idx + 5 * j) // 9) % 2 == 1 and sc_.whole(d) for j, (d, _) in enumerate(chs)) or any(
         (idx + k) % 3 != 2 and (idx + k) % 2 == 1 and sc_.whole(([0] + [d for d, _ in chs])[k] + (1 if k < len(chs) else 3))
         for k in range(len(chs) + 1))
-    real = _guard(ctx, 'Chopper()', desc, lambda: [make_chopper(cc, sc_, d, win, idx + 5 * j) for j, (d, win) in enumerate(chs)])
+    real = _guard(ctx, 'Chopper()', desc, lambda: [
+        make_chopper(cc, sc_, d, win, idx + 5 * j, dist=sc_.distance(d, 'cm', True) if probe == 'int_chop_cm' else None)
+        for j, (d, win) in enumerate(chs)])
     if real is None:
         return
     n = len(chs)
@@ -768,7 +775,7 @@ def run(ctx):
         # integer-typed operands in another unit than the code works in (HARDENING 1 + 5), on a few enumerated cascades
         some = [c for c in cases if c['choppers']][:: max(1, len(cases) // 8)][:8]
         for i, case in enumerate(some):
-            tasks.append(('probe', (('int_ms', 'int_cm', 'int_us', 'int_cm')[i % 4], case), i, rng.getrandbits(48)))
+            tasks.append(('probe', (('int_ms', 'int_cm', 'int_us', 'int_chop_cm')[i % 4], case), i, rng.getrandbits(48)))
         n_enum = len(tasks)
         # -------------------------------------------------------------- 3. code -> spec, random physical cascades
         tasks += [('random', None, t, rng.getrandbits(48)) for t in range(2500 if th else 400)]
